@@ -174,9 +174,19 @@ def gen_filtered(r: random.Random, scope: list[str], allow_tern: bool = True, ts
         return e
     if allow_tern and r.random() < 0.12:
         cond = gen_bool(r, scope, 1)
-        alt = gen_filtered(r, scope, False) if r.random() < 0.7 else None
+        alt = gen_filtered(r, scope, False) if r.random() < 0.6 else None
         # a ternary's left operand may carry filters; alternative too
-        return ("tern", cond, e, alt)
+        e = ("tern", cond, e, alt)
+        if r.random() < 0.4:
+            # tail filters (`a if c else b || f | g`) apply to whichever branch was taken,
+            # also to the nil of a false condition without else
+            for _ in range(r.choice([1, 1, 2])):
+                name = r.choice(["default", "default", "append", "prepend", "upcase", "size", "join", "first", "plus"])
+                args = []
+                if FILTERS[name] == 1 and (name not in ("default", "join") or r.random() < 0.8):
+                    args.append(r.choice([("lit", "x"), ("lit", 1), ("path", "n", []), ("path", "s", [])]))
+                e = ("filter", e, name, args)
+        return e
     return e
 
 
@@ -401,12 +411,13 @@ class Gen:
             return (tag, gen_bool(r, scope), self.block(scope, depth - 1, in_loop), alts, els)
         if k < 0.67:
             whens = []
-            for _ in range(r.choice([1, 2, 3])):
+            # a case block may have no `when` at all: only its else block (if any) renders
+            for _ in range(r.choice([0, 1, 1, 2, 2, 3])):
                 alts = [gen_primitive(r, scope) for _ in range(r.choice([1, 1, 2]))]
                 whens.append((alts, self.block(scope, depth - 1, in_loop)))
             els = self.block(scope, depth - 1, in_loop) if r.random() < 0.6 else None
             subject = gen_primitive(r, scope)
-            if r.random() < 0.25:
+            if whens and r.random() < 0.25:
                 subject = r.choice([("path", "flag", []), ("lit", True), ("lit", 1), ("path", "n", [])])
                 whens[0] = ([r.choice([("lit", 1), ("lit", True), ("lit", 0), ("lit", False)])], whens[0][1])
             return ("case", subject, whens, els)
@@ -555,7 +566,7 @@ def p_expr(e: tuple, top: bool = True) -> str:
         return f"{p_expr(e[2])} {e[1]} {p_expr(e[3])}"
     if t == "filter":
         args = ", ".join(p_expr(a) for a in e[3])
-        return p_expr(e[1]) + " | " + e[2] + (": " + args if args else "")
+        return p_expr(e[1]) + (" || " if e[1][0] == "tern" else " | ") + e[2] + (": " + args if args else "")
     if t == "lfilter":
         ps = e[3] if len(e) < 6 or e[5] is None else f"({e[3]}, {e[5]})"
         return f"{p_expr(e[1])} | {e[2]}: {ps} => {p_expr(e[4])}"
